@@ -90,6 +90,11 @@ func (c *Client) Produce(args ProduceArgs) (enc.Name, error) {
 			}
 		}
 
+		// skip empty buffers, so that trailing ones do not produce an extra empty segment
+		for len(content) > 0 && len(content[0]) == 0 {
+			content = content[1:]
+		}
+
 		data, err := c.engine.Spec().MakeData(name, cfg, segContent, signer)
 		if err != nil {
 			return nil, err
